@@ -27,6 +27,9 @@ type clientHello struct {
 	// message, and the message inside buf. A ClientHello has none; in an
 	// EncodedClientHelloInner this is the padding.
 	trailing []byte
+	// noExtensions is set when the message ends after the compression
+	// methods, without an extensions block.
+	noExtensions bool
 }
 
 // The ECH Extension as specified in Section 5 of
@@ -99,6 +102,9 @@ func (c *clientHello) marshal(aad bool) ([]byte, error) {
 				b.AddBytes(c.LegacyCompressionMethods)
 			})
 
+			if c.noExtensions && len(c.Extensions) == 0 {
+				return
+			}
 			b.AddUint16LengthPrefixed(func(b *cryptobyte.Builder) {
 				for _, ext := range c.Extensions {
 					b.AddUint16(ext.Type)
@@ -185,8 +191,11 @@ func parseClientHello(buf []byte) (*clientHello, error) {
 	//	return nil, ErrIllegalParameter
 	//}
 
+	// Before TLS 1.3 the extensions are optional: a ClientHello may end after
+	// the compression methods (RFC 5246, Section 7.4.1.2).
 	var extensions cryptobyte.String
-	if !s.ReadUint16LengthPrefixed(&extensions) {
+	hello.noExtensions = s.Empty()
+	if !hello.noExtensions && !s.ReadUint16LengthPrefixed(&extensions) {
 		return nil, ErrDecodeError
 	}
 	hello.trailing = append(slices.Clone(s), zeros...)
